@@ -958,7 +958,16 @@ def gen_preds(rng, n=4):
     return preds
 
 
-def gen_reg(rng, conv, d, preds, tagger):
+def gen_reg(rng, conv, d, preds, tagger, prev=None):
+    """a registration op; `prev` = the ops generated so far: with some probability an earlier registration target
+    (same converter and direction; unions and NewTypes preferred) is registered AGAIN with a new hook"""
+    if prev and rng.random() < 0.22:
+        again = [o for o in prev if o.get("op") == "hook" and o.get("conv") == conv and o.get("dir") == d]
+        if again:
+            pick = [o for o in again if U.types[o["ty"]].name in ("UAP", "OA", "NA", "UID", "OptP") or "[" in U.types[o["ty"]].name] or again
+            o = dict(rng.choice(pick))
+            o["tag"] = tagger()
+            return o
     r = rng.random()
     if r < 0.45:
         nm = rng.choice(REG_TARGETS)
